@@ -85,6 +85,13 @@ def cases(draw):
                 else:
                     numeric = kind in ("Integer", "Decimal")
                     rows[y][x] = draw(st.sampled_from(WILD_NUMBERS if numeric and draw(st.booleans()) else WILD_TEXTS))
+    text_columns = [i for i, f in enumerate(spec["fields"]) if f["type"] == "Text"]
+    if spec["fmt"].get("allowed") and len(rows) > header and text_columns and draw(st.booleans()):
+        # a value of several lines in a row that is fine otherwise
+        y = draw(st.integers(header, len(rows) - 1))
+        x = draw(st.sampled_from(text_columns))
+        if x < len(rows[y]):
+            rows[y][x] = draw(st.sampled_from(["two\nlines", "a\n\nb", "x\ny z"]))
     # a comment row of the CID with many characters that are item delimiters in some CSV dialect
     comment = draw(st.sampled_from(["", "", ";" * 400, "\t" * 400, "a;b\tc|d;" * 80, "x,y" * 5, ":" * 300]))
     return {"spec": spec, "rows": rows, "comment": comment}
